@@ -34,6 +34,8 @@ type Resp struct {
 	Header  map[string]string
 	Body    []byte
 	DelayMs int
+	// Chunks, when set, are written one by one with a flush after each (a streamed, chunked answer) instead of Body.
+	Chunks [][]byte
 	// Hijack, when set, takes over the raw connection instead of a normal response.
 	Hijack func(c net.Conn, bufrw io.ReadWriter)
 }
@@ -132,9 +134,20 @@ func (h *HTTP) handle(w http.ResponseWriter, r *http.Request) {
 		resp.Status = 200
 	}
 	w.WriteHeader(resp.Status)
-	if r.Method != http.MethodHead {
-		_, _ = w.Write(resp.Body)
+	if r.Method == http.MethodHead {
+		return
 	}
+	if len(resp.Chunks) > 0 {
+		fl, _ := w.(http.Flusher)
+		for _, ch := range resp.Chunks {
+			_, _ = w.Write(ch)
+			if fl != nil {
+				fl.Flush()
+			}
+		}
+		return
+	}
+	_, _ = w.Write(resp.Body)
 }
 
 var (
